@@ -254,11 +254,11 @@ impl Prop for C13 {
             6 => (clock_value(), clock_value(), inc_value(), inc_value(), any::<bool>(), 0u8..4, prop_oneof![2 => Just(0u8), 1 => 1u8..4], prop_oneof![2 => Just(0u8), 1 => 1u8..28]).prop_map(|(wtime, btime, winc, binc, black, order, omit, movestogo)| ClockCase::Clock { wtime, btime, winc, binc, black, order, omit, movestogo }),
             // increments within a few hundred milliseconds of the clock they belong to, on either side of it: the
             // band in which "2 % of the clock plus the increment minus 150" crosses the clock itself
-            2 => (clock_value(), clock_value(), 0u64..400, 0u64..400, any::<bool>(), any::<bool>(), 0u8..4, any::<bool>())
-                .prop_map(|(wtime, btime, d1, d2, below, black, order, far)| {
+            3 => (clock_value(), clock_value(), 0u64..400, 0u64..400, any::<bool>(), any::<bool>(), 0u8..4, any::<bool>(), prop_oneof![3 => Just(0u8), 1 => 1u8..28])
+                .prop_map(|(wtime, btime, d1, d2, below, black, order, far, movestogo)| {
                     let d1 = if far { d1 * 8 } else { d1 };
                     let near = |c: u64, d: u64| if below { c.saturating_sub(d) } else { c + d };
-                    ClockCase::Clock { wtime, btime, winc: near(wtime, d1), binc: near(btime, if far { d2 * 8 } else { d2 }), black, order, omit: 0, movestogo: 0 }
+                    ClockCase::Clock { wtime, btime, winc: near(wtime, d1), binc: near(btime, if far { d2 * 8 } else { d2 }), black, order, omit: 0, movestogo }
                 }),
             2 => (prop_oneof![2 => prop::sample::select(vec![0u64, 1, 4, 5, 6, 10, 50, 200]), 1 => 0u64..2000], any::<bool>()).prop_map(|(movetime, black)| ClockCase::MoveTime { movetime, black }),
             2 => (clock_value(), clock_value(), inc_value(), inc_value(), prop_oneof![1 => prop::sample::select(vec![0u64, 1, 5, 6, 50, 200]), 1 => 0u64..3000], any::<bool>(), 0u8..5, 0u8..4)
